@@ -289,10 +289,18 @@ Lemma torn_refuted :
   ex_d / 1000000 * 1000000 = 1000000000.
 Proof.
   cbv zeta. repeat match goal with |- _ /\ _ => split end.
-  all: try (vm_compute; reflexivity).
+  - reflexivity.
   - repeat constructor; unfold wf_part; vm_compute; reflexivity.
   - vm_compute. discriminate.
-  - vm_compute. discriminate.
+  - vm_compute. reflexivity.
+  - unfold ex_k. lia.
+  - vm_compute. reflexivity.
+  - vm_compute. reflexivity.
+  - vm_compute. reflexivity.
+  - vm_compute. reflexivity.
+  - vm_compute. reflexivity.
+  - vm_compute. reflexivity.
+  - vm_compute. reflexivity.
 Qed.
 
 (* the torn window in general: with i of the 4 bytes written the field is the first i bytes of the new value followed
@@ -316,10 +324,33 @@ Proof.
   set (nw := firstn i (enc32 (duration_field d))). set (ol := skipn i (enc32 0)).
   assert (length (nw ++ ol) = 4%nat) as L4.
   { unfold nw, ol. rewrite app_length, firstn_length, skipn_length. cbn [length enc32]. lia. }
-  replace (A ++ (a ++ nw) ++ (ol ++ b) ++ rest ++ parts_bytes ps)
+  replace (A ++ ((a ++ nw) ++ ol ++ b) ++ rest ++ parts_bytes ps)
     with ((A ++ a) ++ (nw ++ ol) ++ (b ++ rest ++ parts_bytes ps)) by (rewrite <- !app_assoc; reflexivity).
   replace (len A + len a) with (len (A ++ a)) by (rewrite len_app; reflexivity).
   unfold field_at, len. rewrite Nat2Z.id, skipn_app_len. cbn [Z.to_nat skipn].
   rewrite firstn_app_ge by lia. rewrite L4, Nat.sub_diag, firstn_O, app_nil_r.
   rewrite (firstn_all2 (nw ++ ol)) by lia. reflexivity.
 Qed.
+
+(* the refutation in the shape of list_any_write_crash: same hypotheses, the pinned log, and a listed duration that is
+   neither a scan of the parts nor the closed duration *)
+Lemma torn_refuted_ex :
+  exists ft hd a b rest ps d k,
+    let s := crash_state (close_log_pinned ft hd a b rest ps d) k 0 0 in
+    let il := len (init_bytes ft (moov_with hd a 0 b rest)) in
+    len hd = 8 /\ Forall wf_part ps /\ 0 <= d < 4294967296 * 1000000 /\ (1 <= k)%nat /\ wf_bytes s = true /\
+    skipn (Z.to_nat il) s = parts_bytes ps /\
+    exists v, list_source s (rewrite_off ft + len a) il = FromHeader v /\ 0 < v < d / 1000000 * 1000000.
+Proof.
+  exists ex_ft, ex_hd, ex_a, ex_b, ex_rest, ex_ps, ex_d, ex_k.
+  destruct torn_refuted as (H1 & H2 & H3 & H4 & H5 & H6 & _ & _ & _ & H7 & H8).
+  cbv zeta. do 6 (split; [assumption|]).
+  exists 768000000. split; [exact H7|]. rewrite H8. lia.
+Qed.
+
+Lemma example_rewrite :
+  list_source (crash_state (close_log ex_ft ex_hd ex_a ex_b ex_rest ex_ps ex_d) 3 0 0) (rewrite_off ex_ft + len ex_a) 136
+  = FromParts (Ok 172) /\
+  list_source (crash_state (close_log ex_ft ex_hd ex_a ex_b ex_rest ex_ps ex_d) 4 0 0) (rewrite_off ex_ft + len ex_a) 136
+  = FromHeader 1000000000.
+Proof. split; vm_compute; reflexivity. Qed.
